@@ -5,8 +5,9 @@ import RbV.Spec.Hmm
 Log-space additions of the Rust code are multiplications here, `ln_sum_exp` is a plain sum, `LogProb` columns
 of the `Array2` matrices are `List Nat` of length `S` (`ix c k` = entry `k`).
 
-* `viterbi`  follows `viterbi_matrices` (per target state the arg-max over the previous column with the
-  *last* maximum winning, as `Iterator::max_by` does; value = best · transition · emission; back-pointer)
+* `viterbi`  follows `viterbi_matrices` (per target state `Iterator::max_by` over the previous column with the
+  zero-aware comparator closure of the Rust code — `cmpZ`, `argmaxBy`, `selZ`; value = best · transition ·
+  emission; back-pointer)
   and `viterbi_traceback` (arg-max of the last column with the last maximum winning, as `max_by_key`
   does; then the back-pointers from the last column to the first).  Like the Rust code it does **not** look
   at the end weights.
@@ -36,15 +37,40 @@ def argmaxLast (f : Nat → Nat) : Nat → Nat
 
 /-! ## Viterbi -/
 
+/-- a predecessor selector: `sel c t n` = index `< n` chosen for the weights `c k * t k` (`c` = previous column,
+`t` = transitions into the target state) -/
+abbrev Sel := (Nat → Nat) → (Nat → Nat) → Nat → Nat
+
+/-- plain arg-max of the products, last maximum wins -/
+def selLast : Sel := fun c t n => argmaxLast (fun k => c k * t k) n
+
+/-- the comparator closure of `viterbi_matrices` ("zero-aware maximum"): both previous values zero → `Equal`;
+only the left one zero → `Less`; only the right one zero → `Greater`; otherwise compare
+`x + transition(a, j)` with `y + transition(b, j)` (sums of logs = products here; `is_zero` = weight 0) -/
+def cmpZ (c t : Nat → Nat) (a b : Nat) : Ordering :=
+  if c a = 0 ∧ c b = 0 then .eq
+  else if c a = 0 then .lt
+  else if c b = 0 then .gt
+  else compare (c a * t a) (c b * t b)
+
+/-- `Iterator::max_by` over the indices `0 … n-1`: fold that keeps the accumulated element only when the
+comparator says `Greater` (so the last of several maxima wins) -/
+def argmaxBy (cmp : Nat → Nat → Ordering) : Nat → Nat
+  | 0 => 0
+  | n + 1 => if n = 0 then 0 else if cmp (argmaxBy cmp n) n = .gt then argmaxBy cmp n else n
+
+/-- the selector of the Rust code -/
+def selZ : Sel := fun c t n => argmaxBy (cmpZ c t) n
+
 /-- one column of `viterbi_matrices` (`i > 0`): values and back-pointers -/
-def stepV (m : Hmm) (col : List Nat) (o : Nat) : List Nat × List Nat :=
-  let best := fun j => argmaxLast (fun k => ix col k * m.trans k j) m.S
+def stepV (sel : Sel) (m : Hmm) (col : List Nat) (o : Nat) : List Nat × List Nat :=
+  let best := fun j => sel (ix col) (fun k => m.trans k j) m.S
   (tab m.S fun j => ix col (best j) * m.trans (best j) j * m.emit j o, tab m.S best)
 
 /-- the columns after `col` for the remaining observations -/
-def matFrom (m : Hmm) (col : List Nat) : List Nat → List (List Nat × List Nat)
+def matFrom (sel : Sel) (m : Hmm) (col : List Nat) : List Nat → List (List Nat × List Nat)
   | [] => []
-  | o :: os => let cf := stepV m col o; cf :: matFrom m cf.1 os
+  | o :: os => let cf := stepV sel m col o; cf :: matFrom sel m cf.1 os
 
 /-- initial column -/
 def col0 (m : Hmm) (o : Nat) : List Nat := tab m.S fun s => m.init s * m.emit s o
@@ -61,15 +87,18 @@ def traceback (S : Nat) (col : List Nat) : List (List Nat × List Nat) → List 
   | [] => let k := argmaxLast (ix col) S; ([k], ix col k)
   | cf :: rest => let r := traceback S cf.1 rest; (ix cf.2 (r.1.headD 0) :: r.1, r.2)
 
-/-- mirror of `hmm::viterbi` (ignores `m.fin`, as the Rust code ignores `end_prob`) -/
+/-- mirror of `hmm::viterbi`: zero-aware comparator, no end weights (the Rust code never calls `end_prob`) -/
 def viterbi (m : Hmm) : List Nat → List Nat × Nat
   | [] => ([], 0)
-  | o :: os => traceback m.S (col0 m o) (matFrom m (col0 m o) os)
+  | o :: os => traceback m.S (col0 m o) (matFrom selZ m (col0 m o) os)
 
-/-- Viterbi including the end weights (what the property demands of a model with an end vector) -/
-def viterbiE (m : Hmm) : List Nat → List Nat × Nat
+/-- Viterbi including the end weights, for any predecessor selector -/
+def viterbiWith (sel : Sel) (m : Hmm) : List Nat → List Nat × Nat
   | [] => ([], 0)
-  | o :: os => tracebackW m.S m.fin (col0 m o) (matFrom m (col0 m o) os)
+  | o :: os => tracebackW m.S m.fin (col0 m o) (matFrom sel m (col0 m o) os)
+
+/-- the reference used by the driver (what the property demands of a model with an end vector) -/
+def viterbiE (m : Hmm) : List Nat → List Nat × Nat := viterbiWith selLast m
 
 /-! ## forward -/
 
